@@ -42,10 +42,14 @@ optimiser, i.e. the expressions on which the C07 theorems turn:
     k_xmapix                       triudix(ntaxa, nparent) if unique_parents else triuix(ntaxa, nparent)
   SortingSubsetOptimizationAlgorithm.minimize
     k_sort_lo / k_sort_hi          gbest_ix = ix[0:ndecn, 0]
+  UsefulnessCriterionIntegerSelection.problem
+    k_uc_int_lower / k_uc_int_upper   decn_space_lower = numpy.repeat(0, len(xmap)) / decn_space_upper = numpy.repeat(<number>, len(xmap))
+                                      (the repeated number; the per-cross nmating array may enter through its sum only)
 
 Besides the expressions, the translator pins the *glue* around them: the statement sequence of every sample_xconfig (so that
 e.g. an outcross_shuffle moved under a condition is refused), the keyword arguments of the sampling calls, the class of the
-configuration a protocol builds, `options = numpy.repeat(numpy.arange(len(decn)), decn)`, `start = self.rng.choice(noption)`.
+configuration a protocol builds, `options = numpy.repeat(numpy.arange(len(decn)), decn)`, `start = self.rng.choice(noption)`,
+both bounds of the UC integer decision space repeated len(xmap) times and stacked, ndecn = len(xmap).
 `Model/C07_KernelProg.v` assembles the configurations from these definitions, `Proofs/C07_Kernel.v` proves the assembled
 programs equal to the hand model, `Props/C07.v` states the property theorems about the assembled programs.
 Fail closed: every selector demands exactly one match, every name must be bound by the environment given here, anything
@@ -61,6 +65,7 @@ ARRAY = "pybrops/core/util/array.py"
 ERRPY = "pybrops/core/error/error_value_python.py"
 ERRNP = "pybrops/core/error/error_value_numpy.py"
 SORTING = "pybrops/opt/algo/SortingSubsetOptimizationAlgorithm.py"
+UCSEL = "pybrops/breed/prot/sel/UsefulnessCriterionSelection.py"
 
 
 def _src(e):
@@ -471,6 +476,28 @@ def translate(repo, gen_dir):
     sl = e.slice.elts[0]
     D("k_sort_lo", [("ndecn", "Z")], "Z", P.to_coq(sl.lower, Zc({"ndecn": "ndecn"})), "SortingSubsetOptimizationAlgorithm.minimize: gbest_ix = %s   (from)" % _src(e))
     D("k_sort_hi", [("ndecn", "Z")], "Z", P.to_coq(sl.upper, Zc({"ndecn": "ndecn"})), "SortingSubsetOptimizationAlgorithm.minimize: gbest_ix = %s   (below)" % _src(e))
+
+    # ================================================================== UsefulnessCriterionIntegerSelection.problem: decision-space bounds
+    cls = "UsefulnessCriterionIntegerSelection"
+    fn = P.find_function(repo, UCSEL, cls + ".problem")
+    where = cls + ".problem"
+    lo, up, st = P.the_assignment(fn, "decn_space_lower"), P.the_assignment(fn, "decn_space_upper"), P.the_assignment(fn, "decn_space")
+    _need(_src(st) == "numpy.stack([decn_space_lower, decn_space_upper])", where + ": decn_space is no longer numpy.stack([decn_space_lower, decn_space_upper])")
+    for e, what in ((lo, "decn_space_lower"), (up, "decn_space_upper")):
+        # ONE number repeated once per candidate cross (an array as first argument would be repeated element by element)
+        _need(isinstance(e, ast.Call) and _src(e.func) == "numpy.repeat" and len(e.args) == 2 and not e.keywords and _src(e.args[1]) == "len(xmap)",
+              "%s: %s is not numpy.repeat(<number>, len(xmap)): %s" % (where, what, _src(e)))
+    D("k_uc_int_lower", [], "Z", P.to_coq(lo.args[0], Zc({})), "%s: decn_space_lower = %s" % (where, _src(lo)))
+    tot = [t for t in ("numpy.sum(self.nmating)", "self.nmating.sum()") if t in _src(up.args[0])]
+    _need(len(tot) == 1, "%s: the upper bound `%s` does not reduce the per-cross nmating array to one number by its sum" % (where, _src(up.args[0])))
+    D("k_uc_int_upper", [("ncross", "Z"), ("nparent", "Z"), ("sum_nmating", "Z")], "Z",
+      P.to_coq(bind(up.args[0], {tot[0]: "sum_nmating"}), Zc({"self.ncross": "ncross", "self.nparent": "nparent", "sum_nmating": "sum_nmating"})),
+      "%s: decn_space_upper = %s   (the repeated number; sum_nmating = %s)" % (where, _src(up), tot[0]))
+    c = P.the_assignment(fn, "prob")
+    _need(isinstance(c, ast.Call) and not c.args and all(k.arg is not None for k in c.keywords), where + ": the problem is not built by one call with keyword arguments")
+    kw = {k.arg: _src(k.value) for k in c.keywords}
+    for k, v in (("ndecn", "len(xmap)"), ("decn_space", "decn_space"), ("decn_space_lower", "decn_space_lower"), ("decn_space_upper", "decn_space_upper"), ("xmap", "xmap")):
+        _need(kw.get(k) == v, "%s: the problem is not built with %s = %s" % (where, k, v))
 
     text = (P.HEADER % "harness/translate/c07_kernel.py") + \
         "From Coq Require Import ZArith QArith Bool List.\nImport ListNotations.\nLocal Open Scope Z_scope.\n\n" + "\n".join(defs)
